@@ -2,7 +2,42 @@ package fs
 
 // C34: copying / hard-linking an output tree reproduces it and leaves the source alone.
 
-func init() { vpRegister("vpH_C34_copy", vpH_C34_copy) }
+func init() {
+	vpRegister("vpH_C34_copy", vpH_C34_copy)
+	vpRegister("vpH_C34_again", vpH_C34_again)
+}
+
+// vpH_C34_again: the tree is copied / linked into place, a source file is then
+// replaced by a new file with other contents (a rebuild), and the tree is
+// copied / linked into the same destination again: if that succeeds the
+// destination shows the new contents, not the stale ones.
+func vpH_C34_again() {
+	vpFSReset()
+	const src, dst = "plz-out/tmp/src", "plz-out/gen/dst"
+	isDir := vpNondetBool("source-is-a-directory")
+	file := src
+	if isDir {
+		vpMkDir(src)
+		file = src + "/f"
+		if vpNondetBool("second-file") {
+			vpMkFile(src+"/g", "same", 0o644)
+		}
+	}
+	vpMkFile(file, "v1", 0o644)
+	vpMkDir("plz-out/gen")
+	link := vpNondetBool("link")
+	fallback := vpNondetBool("fallback")
+	vpAssume(RecursiveCopyOrLinkFile(src, dst, 0o644, link, fallback) == nil)
+	// the rebuild writes a new file (new inode), as build actions do
+	vpRemove(file)
+	vpMkFile(file, vpNondetString("new-content", 2), 0o644)
+	before := vpTreeString(src)
+	err := RecursiveCopyOrLinkFile(src, dst, 0o644, link, fallback)
+	if err == nil {
+		vpAssert("destination-shows-the-new-contents", vpStrEq(vpC34Normalise(vpTreeString(dst)), vpC34Normalise(before)))
+	}
+	vpAssert("source-untouched", vpStrEq(vpTreeString(src), before))
+}
 
 func vpH_C34_copy() {
 	vpFSReset()
